@@ -472,6 +472,18 @@ func (w *World) applyEffect(pre, post *Snapshot, op Op, reply map[string]any) (*
 				bad("C16", "sequence reply edge %d is %v->%v, expected %s->%s", i, m["from_id"], m["to_id"], want[i][0], want[i][1])
 			}
 		}
+		for _, e := range edges {
+			m, _ := e.(map[string]any)
+			from, to := asString(m["from_id"]), asString(m["to_id"])
+			if pi := post.Items[from]; pi != nil {
+				if op.Kind == "sequence" && !hasStr(pi.Deps, to) {
+					bad("C16", "sequence reports the edge %s -> %s, which a following show does not have", from, to)
+				}
+				if op.Kind == "sequence_rm" && hasStr(pi.Deps, to) {
+					bad("C16", "sequence rm reports the edge %s -> %s removed, a following show still has it", from, to)
+				}
+			}
+		}
 		wantAction := "link"
 		if op.Kind == "sequence_rm" {
 			wantAction = "unlink"
